@@ -122,6 +122,18 @@ func countWarningLeaves(err error) int {
 	return n
 }
 
+// dumpHasNonFinite looks for NaN/Inf in the parsed result itself (the generic
+// decode is unavailable when a later YAML document in the stream is malformed).
+func dumpHasNonFinite(n *gen.Node) bool {
+	found := false
+	n.Walk("", func(_ string, x *gen.Node) {
+		if x.Kind == gen.KFloat && (math.IsNaN(x.F) || math.IsInf(x.F, 0)) {
+			found = true
+		}
+	})
+	return found
+}
+
 func hasNonFinite(v any) bool {
 	switch x := v.(type) {
 	case float64:
@@ -293,7 +305,7 @@ func runC13(c *engine.Ctx) {
 		c.Guard("C13.panic", "json.Marshal after "+faultClass, func() { _, jerr = json.Marshal(pl) })
 		if jerr != nil {
 			cls := faultClass
-			if strings.Contains(jerr.Error(), "unsupported value") && hasNonFinite(generic) {
+			if strings.Contains(jerr.Error(), "unsupported value") && (hasNonFinite(generic) || dumpHasNonFinite(view.Dump(pl))) {
 				cls = "non-finite float (.nan/.inf) in the input"
 			}
 			c.Fail("C13.json-marshal", cls, "usable Parse result does not marshal to JSON: %v\n%s", jerr, desc())
